@@ -19,13 +19,31 @@ ASSUME = ['float64 arithmetic; tolerances 1e-12 relative to ||A||',
 TOL = 1e-12
 
 
+
+def _charge_forms(q0, q1, seed):
+    """The same charge vectors in another integer dtype if every value fits: uint8 / uint16 for non-negative charges, int16 otherwise."""
+    k = seed % 4
+    allq = np.concatenate([q0, q1])
+    if k == 1 and allq.min() >= 0 and allq.max() < 120:
+        return q0.astype(np.uint8), q1.astype(np.uint8)
+    if k == 2 and allq.min() >= 0 and allq.max() < 30000:
+        return q0.astype(np.uint16), q1.astype(np.uint16)
+    if k == 3 and np.abs(allq).max() < 16000:
+        return q0.astype(np.int16), q1.astype(np.int16)
+    return q0, q1
+
+
 def check_qr(case, rec):
     q0 = np.array(case['q0'], dtype=int)
     q1 = np.array(case['q1'], dtype=int)
     A = block_matrix(q0, q1, case['seed'], case['style'])
     m, n = A.shape
     A0 = A.copy(); q0c = q0.copy(); q1c = q1.copy()
-    Q, R, qi = ptn.qr(A, q0, q1)
+    # charges also as unsigned / narrow integer arrays when their values allow it
+    qa, qb = _charge_forms(q0, q1, case['seed'])
+    if qa.dtype != q0.dtype:
+        rec.label('charge_dtype_' + str(qa.dtype))
+    Q, R, qi = ptn.qr(A, qa, qb)
     # the factors are judged after the library has been used again (same and different charge layout): results must not live
     # in storage that later calls reuse
     ptn.qr(A[::-1, ::-1].copy(), q0[::-1].copy(), q1[::-1].copy())
